@@ -68,9 +68,11 @@ Print Assumptions C10_exit_while_paused_is_held_then_released.
      all_calls (fun k => negb (is_running k)) s ->
      all_calls (fun k => match k_qc k with [] => true | _ => false end) s ->
      all_calls client_half_closed s -> sreg s = [] /\ open_in s = 0.
-   The extra hypothesis of the partial theorem, `is_leak k = false`, excludes exactly the handlers that
-   ended in a BaseException (or were cancelled before their first step) while the server had neither
-   ended nor reset the stream and had not been reset (C10_leak_class_is_D4). *)
+   The extra hypothesis of the partial theorem, `is_leak k = false`, excludes exactly the handlers whose
+   request_handler was left by a BaseException (from the body: D4; a cancellation inside
+   Stream.__aexit__ while the terminal response waited for write_ready: D48; cancelled before the first
+   step) while the server had neither ended nor reset the stream and had not been reset
+   (C10_leak_class_is_D4). *)
 Theorem C10_no_open_streams_server_partial :
   forall n m ops, let s := run ops (init n m) in
   all_calls (fun k => negb (is_running k)) s ->
